@@ -13,6 +13,7 @@ UUID_OF_A = z3.Function("uuid_of_aoef_object", AOBJ, UUID)
 ASM_A = z3.Function("assemble_aoef", DOBJ, UUID, AOBJ)
 ASM_D = z3.Function("assemble_soundevent", AOBJ, DOBJ)
 
+TAG_CLS = "soundevent.io.aoef.tag.TagAdapter"
 METHODS = {"GetId": ("obj", "Opq:DataObj"), "ToAoef": ("obj", "Opq:DataObj"), "ToSoundEvent": ("obj", "Opq:AoefObj"),
            "FromId": ("obj_id", "Opq:UUID"), "Values": (None, None)}
 
@@ -26,6 +27,19 @@ def install(v):
     h[f"method:{CLS}.assemble_aoef"] = lambda ex, p, args, kw, node: [(p, Opq("AoefObj", ASM_A(args[1].t, args[2].t)))]
     h[f"method:{CLS}.assemble_soundevent"] = lambda ex, p, args, kw, node: [(p, Opq("DataObj", ASM_D(args[1].t)))]
     return v
+
+
+def tag_obligations(v):
+    """TagAdapter.get_id (the inherited body with TagAdapter's own key and id functions): ids are handed out in order"""
+    ref = Ref(10_100, TAG_CLS)
+    ghost = {"mapping0": "Dict[Tuple[str, str], int]", "sstore0": "Dict[int, Obj:soundevent.data.tags.Tag]",
+             "astore0": "Dict[int, Opq:AoefObj]", "k": "Tuple[str, str]"}
+
+    def prelude(ex, p0, values):
+        heap = dict(p0.heap or {})
+        heap[ref.ident] = {"_mapping": values["mapping0"], "_soundevent_store": values["sstore0"], "_aoef_store": values["astore0"]}
+        return Path(p0.cond, p0.env, None, heap)
+    return v.verify("TagGetId", "C02", tag="[TagAdapter]", types={"obj": "Obj:soundevent.data.tags.Tag"}, fixed={"self": ref}, ghost=ghost, prelude=prelude)
 
 
 def obligations(v, cname):
